@@ -144,6 +144,7 @@ CHECKS['C19'] = dict(
 )
 
 CHECKS['C20'] = dict(
+    level='fault_enumeration',
     variants=['asan'],
     targets=['build/bin/c20'],
     binaries=['build/bin/c20'],
@@ -230,4 +231,34 @@ CHECKS['C32'] = dict(
     assumptions=['only the clauses of C32 that meet a seam (randomness, global sieve) are decided; gcd/lcm/gcd_ext/mod/quotient families/mod_inverse/crt/fibonacci/lucas/binomial/factorial/divides/bernoulli/harmonic/legendre/jacobi/kronecker/quadratic_residues/polygonal numbers/perfect powers/nextprime/probab_prime_p are pure and NOT covered',
                  'which non-trivial divisor a factoring method returns, which root nthroot_mod/powermod return, and which primitive root of a composite modulus is returned are unspecified: only validity is required',
                  'factor_lehman_method finding nothing for a composite is counted (probe) but not judged', 'sampling, not proof'],
+)
+
+CHECKS['C41'] = dict(
+    variants=['tsan_ts', 'asan_ts'],
+    targets=['build/bin/c41_tsan', 'build/bin/c41_asan'],
+    binaries=['build/bin/c41_tsan', 'build/bin/c41_asan'],
+    quick=dict(runs=2400, runs_per_binary=[2400, 1600], workers=16, chunk=10, wall_cap=900),
+    thorough=dict(runs=60000, runs_per_binary=[60000, 30000], workers=16, chunk=10, wall_cap=3300),
+    run_timeout=120,
+    recycle_runs=4,      # fresh process every 4 runs: cold function-local statics keep being explored
+    shrink_keys=['threads', 'ops', 'switches', 'shared'],
+    expected_probes=['context_switch_injected', 'sched_random', 'sched_pct', 'static_initialiser_contended',
+                     'dummies_created_concurrently'],
+    rule=('one run = 3-8 shared expressions (sums, products, powers, elementary functions, special angles that hit '
+          'the lazily built tables) built by the main thread and left untouched (hash_ == 0), then 2-4 real threads '
+          'each running 3-13 operations from the property\'s list (hash, eq, __cmp__, str, diff, subs, xreplace, '
+          'expand, add/mul/pow/sub/div with shared and thread-local operands, function constructors, get_args, '
+          'has_symbol, free_symbols, eval_double, copying/dropping RCPs in containers, dummy()) under the seeded '
+          'scheduler: random switching with per-kind probabilities, PCT-style priorities with 1-4 change points, or '
+          'switch-at-every-yield. Non-trivial = >=2 context switches and >=4 compared results; distinct = distinct '
+          'hash of the context-switch sequence (yield index, thread) - see distinct_abstract_states.'),
+    state_measure='distinct context-switch sequences: hash of the list of (yield index, thread switched to)',
+    simulated_time='none: SymEngine has no clock; progress is counted in scheduler yield points (operations_or_scheduler_steps)',
+    components=dict(real=REAL_COMMON + ['libsymengine.a built with WITH_SYMENGINE_THREAD_SAFE=ON and -fsanitize=thread', 'real std::thread workers', 'ThreadSanitizer runtime (happens-before detector)'],
+                    stub=['who runs next: uninstrumented futex scheduler (sim/sched.cpp) deciding at every __tsan_atomic* call and __cxa_guard_* (link-time --wrap); in the second binary (thread-safe build under ASan/UBSan) at the add-only source hooks SYMENGINE_VERIF_SIM_POINT instead']),
+    assumptions=['sequentially consistent interleavings at atomic-access granularity; hardware weak-memory reorderings are not modelled (the library uses seq_cst atomics except the relaxed Dummy counter RMW)',
+                 'ThreadSanitizer keeps a bounded access history per location; mitigated by many short runs',
+                 'WITH_SYMENGINE_RCP=yes only (Teuchos RCP not covered); no OpenMP',
+                 'operations outside the property\'s list (prime sieve, Series::step_list) are not exercised concurrently',
+                 'sampling, not proof'],
 )
